@@ -58,6 +58,9 @@ class ClientProxyBuilder(object):
       def _ProxyMethod(self, *args, **kwargs):
         ar = self._dispatcher.DispatchMethodCall(method_name, args, kwargs)
         return ar if asynchronous else ar.get()
+      # wraps() copies the abstract marker of an interface declared with
+      # abc.abstractmethod; the proxy method is its implementation.
+      _ProxyMethod.__isabstractmethod__ = False
       return _ProxyMethod
 
     def is_user_method(m):
